@@ -124,6 +124,19 @@ def registerLoggee(module, name='LOG', flags=DEBUG_NONE):
     return _LOG
 
 
+def show(pyObject):
+    """Printable form of a Python object for a log line.
+
+    Integers longer than the interpreter converts to decimal digits
+    (sys.set_int_max_str_digits) make repr() fail.
+    """
+    try:
+        return repr(pyObject)
+
+    except ValueError:
+        return '<%s object, not printable>' % type(pyObject).__name__
+
+
 def hexdump(octets):
     return ' '.join(
         ['%s%.2X' % (n % 16 == 0 and ('\n%.5d: ' % n) or '', x)
